@@ -202,14 +202,9 @@ func (w *world) waiter(t *simcore.Task) {
 			del bool
 		}
 		var needs []need
-		for id, h := range w.history {
-			for j := len(h) - 1; j >= 0; j-- {
-				if h[j].byUser {
-					if h[j].rev <= rev {
-						needs = append(needs, need{id: id, ver: h[j].ver, at: h[j].at, del: h[j].ver < 0})
-					}
-					break
-				}
+		for id := range w.history {
+			if lu, ok := w.latestUser(id); ok && lu.rev <= rev {
+				needs = append(needs, need{id: id, ver: lu.ver, at: lu.at, del: lu.ver < 0})
 			}
 		}
 		sort.Slice(needs, func(a, b int) bool { return needs[a].id < needs[b].id })
@@ -243,15 +238,7 @@ func (w *world) waiter(t *simcore.Task) {
 		// every change up to rev has been attempted at least once
 		for _, nd := range needs {
 			// still the key's latest?
-			h := w.history[nd.id]
-			latest := -2
-			for j := len(h) - 1; j >= 0; j-- {
-				if h[j].byUser {
-					latest = h[j].ver
-					break
-				}
-			}
-			if latest != nd.ver {
+			if lu, ok := w.latestUser(nd.id); !ok || lu.ver != nd.ver {
 				continue
 			}
 			if nd.del {
@@ -309,12 +296,25 @@ func (w *world) waiter(t *simcore.Task) {
 		}
 		if !okLW && len(rc.rounds) > 0 {
 			last := rc.rounds[len(rc.rounds)-1]
-			w.violate("C16", "low-watermark", "WaitUntilReconciled(r%d) reported retry low watermark %d; at the round ends since the call the failed objects awaiting retry were %v (last attempt failed: %v)",
+			w.violate("C16", "low-watermark", "WaitUntilReconciled(r%d) reported retry low watermark %d; at the round ends since the call the failed objects awaiting retry (key: revision of the failed change) were %v (last attempt failed: %v)",
 				rc.idx, lw, last.strict, last.loose)
 			return
 		}
 		w.probes["low-watermark-checked"]++
 	}
+}
+
+// latestUser returns the user's latest change of the key (highest revision).
+func (w *world) latestUser(id uint64) (tver, bool) {
+	var best tver
+	found := false
+	for _, v := range w.history[id] {
+		if v.byUser && (!found || v.rev > best.rev) {
+			best = v
+			found = true
+		}
+	}
+	return best, found
 }
 
 func minInt(a, b int) int {
